@@ -102,7 +102,7 @@ XercesDOMWrapperParsedSource::getDocument() const
 XalanParsedSourceHelper*
 XercesDOMWrapperParsedSource::createHelper(MemoryManager& theManager) const
 {
-    return XercesDOMParsedSourceHelper::create(theManager);
+    return XercesDOMParsedSourceHelper::create(theManager, &m_parserLiaison);
 }
 
 
